@@ -183,7 +183,7 @@ class C15Monitor(jobsim.Monitor):
         d["values"] = it["x"]
         fk.load(d)
         items = [fk.items[k] for k in self.doc["steps"][j].get("items", range(len(fk.items)))]
-        r = _newton_mod.fun_items(items, fk.field)
+        r = world.ref_fun_items(fk, items)
         f_live = -np.asarray(it["b"])
         if np.all(np.isfinite(f_live)):
             scale = max(float(np.abs(r).max()), float(abs(it["K"]).max()) * (float(np.abs(np.concatenate([v.ravel() for v in it["x"]])).max()) + 1e-4))
